@@ -107,6 +107,13 @@ theorem cont_ledger {b b' : Batt K} {pilot V T ν r : K} (h : contCharge b pilot
       have hV : V ≠ 0 := ne_of_gt hg.1
       have hT : T ≠ 0 := ne_of_gt hg.2
       have hc : b.capacity ≠ 0 := fun h0 => hcap ((isZero_iff _).2 h0)
+      by_cases hfull : 1 ≤ soc b
+      · -- full battery (fix F18): early return, nothing is written but the power
+        rw [if_pos hfull] at h
+        simp only [Except.ok.injEq, Prod.mk.injEq] at h
+        obtain ⟨rfl, rfl⟩ := h
+        simp [energy]
+      rw [if_neg hfull] at h
       by_cases hmd : isZero (b.maxPower / b.capacity / (((60 : Nat) : K) / T)) = true
       · rw [if_pos hmd] at h; simp at h
       rw [if_neg hmd] at h
